@@ -21,6 +21,15 @@ def norm_error(desc):
     return first[:70]
 
 
+def error_class(desc):
+    """an error description reduced to its kind: no position, no quoted names, no numbers"""
+    first = desc.splitlines()[0] if desc else ""
+    first = re.sub(r"^Compiler error at line \d+:\d+: ", "", first)
+    first = re.sub(r"'[^']*'", "'?'", first)
+    first = re.sub(r"\d+", "N", first)
+    return first[:60]
+
+
 def compile_case(srcs, opts):
     return repo.compile_src(srcs, opts)
 
